@@ -128,6 +128,11 @@ def run(project: Project, rep, tier: str):
     if ok is True:
         rep.discharged("HT-KER", fi_k, fi_k.node, "kernel = (1/8πσ)·ΣΣ[exp(−|p−q|²/8σ) − exp(−|p−q̄|²/8σ)] over all pairs",
                        derived=sym.show(r_k.e)[:300])
+    elif ok is False and not I_k.clean_before():
+        rep.unmodelled("HT-KER", fi_k, fi_k.node, "the derived kernel differs from the specification, but a step of the run was "
+                                                  "not modelled (" + "; ".join(sorted({str(u.get("tag")) for u in I_k.unmodelled}
+                                                                                      | {str(l.get("why", ""))[:60] for l in I_k.lossy}))[:200]
+                       + "): no verdict")
     elif ok is False:
         rep.refuted("HT-KER", fi_k, fi_k.node,
                     f"the kernel computed is {sym.show(r_k.e)[:300]} — not the multi-scale kernel of Reininghaus et al.; "
